@@ -26,7 +26,7 @@ use vrp_core::solver::processing::AdvanceDeparture;
 use vverif::histories::*;
 use vverif::pragen::{GenCfg, PragProblem, generate};
 use vverif::replay::{PProblem, check_relation_vehicles, check_relations_have_tours, replay_parsed};
-use vverif::solvecheck::{CaseOutcome, derive_relations, solve_and_replay};
+use vverif::solvecheck::{CaseOutcome, derive_relations, observe_relations, solve_and_replay};
 use vverif::solverun::{ReadOutcome, read_problem, simple_config};
 use vverif::{Rng, Run, clip, mix};
 
@@ -92,9 +92,7 @@ fn build_case(run: &Run, case_seed: u64, thorough: bool, rng: &mut Rng) -> Optio
                         gp2.features.insert("relations".into());
                         match read_problem(&gp2) {
                             ReadOutcome::Ok(p2) => {
-                                for r in rels.iter() {
-                                    run.observe("relation_types", r["type"].as_str().unwrap_or("?"));
-                                }
+                                observe_relations(run, &rels);
                                 gp = gp2;
                                 problem = p2;
                             }
